@@ -46,6 +46,16 @@ type P6 struct {
 	Z string
 }
 
+// P7: list tags in other combinations than the library's own documents use (a one-blank strip set with a comma
+// delimiter, a multi-line blank-separated list without strip, the archive files' "\n\r\t " set), and a string whose
+// values begin with white space
+type P7 struct {
+	CS []string `control:"C-S" delim:", " strip:" "`
+	ML []string `multiline:"true"`
+	CN []string `delim:"," strip:"\n\r\t "`
+	S  string
+}
+
 type P3 struct {
 	L    []string `delim:", "`
 	LS   []string `control:"L-S" delim:"," strip:" \n"`
@@ -84,6 +94,8 @@ func newProbe(t string) interface{} {
 		return &P5{}
 	case "P6":
 		return &P6{}
+	case "P7":
+		return &P7{}
 	}
 	die("unknown probe type %s", t)
 	return nil
